@@ -257,6 +257,11 @@ def pipeline_cases(ctx):
         if trail:
             b.quality[n - trail:] = bit
         num = n - lead - trail
+        if k % 3 == 2:
+            # ONE earth-location word of the first / last line WITH coordinates is out of range (masked per pixel): that line
+            # still has valid latitudes, so it is still the first / last line of the files
+            b.lats[lead, rng.randrange(51)] = rng.choice([95.0, -100.0])
+            b.lats[n - trail - 1, rng.randrange(51)] = rng.choice([95.0, -100.0])
         pool = [(0, 0), (1, 0), (2, 5), (0, num + 3), (num, 0), (3, 0), (5, 9), (1, 2)]
         requests = [rng.choice(pool[:5])] + ([rng.choice(pool) for _ in range(rng.randint(1, 2))] if crossing or k % 4 == 0 else [])
         if k < 2:
